@@ -137,12 +137,14 @@ func c24Keep(o *c24Obs, x *PeerConnection) {
 	c24Mu.unlock()
 }
 
-func c24Release(o *c24Obs) {
+// c24Release closes the connection of a finished execution. After an aborted execution (deadlock,
+// panic) real locks may still be held by torn-down threads, so the object is only dropped then.
+func c24Release(o *c24Obs, r *vsched.Result) {
 	c24Mu.lock()
 	x := c24PCs[o]
 	delete(c24PCs, o)
 	c24Mu.unlock()
-	if x != nil {
+	if x != nil && r != nil && r.Outcome == vsched.Completed {
 		_ = x.Close()
 	}
 }
@@ -211,7 +213,7 @@ func TestVerifC24(t *testing.T) {
 		}
 		body, o := c24Body(t, rc.Scenario)
 		r := vsched.Run(vsched.Config{}, rc.Choices, nil, body)
-		c24Release(o)
+		c24Release(o, r)
 		c.Eval()
 		c.State("replay")
 		c.Transition()
@@ -228,7 +230,7 @@ func TestVerifC24(t *testing.T) {
 		sc := sc
 		check := func(r *vsched.Result, obs any) bool {
 			o, _ := obs.(*c24Obs)
-			defer c24Release(o)
+			defer c24Release(o, r)
 			c.Eval()
 			c.Validated()
 			c.TransitionN(r.Steps)
@@ -250,7 +252,7 @@ func TestVerifC24(t *testing.T) {
 					body2, o2 := c24Body(t, sc)
 					r2 := vsched.Run(vsched.Config{}, r.Choices, nil, body2)
 					key2, _ := c24Judge(sc, o2, r2)
-					c24Release(o2)
+					c24Release(o2, r2)
 					if key2 != key {
 						fmt.Printf("VERIF-NOTE C24 %s: violation %q not reproducible (%q)\n", sc.name(), key, key2)
 						c.NotExhaustive("irreproducible: " + key)
